@@ -87,6 +87,10 @@ STRS = ["", " ", "a", "abc", "hello world", "héllo", "😀", "日本語", "a b 
         ":", "$", "%", "{", "}", "${a}", "%{a}", "\\${a}", "${", "%{", "${arr}", "a\tb", "line1\nline2", "\r\n", "\x00", "é",
         "0", "1", "-1", "true", "false", "no", "and", "or", "(", ")", "--copy", "--prefix", "-r", "--collection", "handle:x",
         "\u00a0", "\u2028", "\ud7ff", "\U0010ffff", "A" * 300, "a,b,c", "k=v\nk2 = v2\n", "[]", "{}", "null", "1.5", "1e3"]
+# texts whose BYTE length and CHARACTER length differ, with an ASCII marker in front: code that tests `len()` and then slices at fixed
+# offsets meets a character boundary inside (seed C07-w7-m2: `#rrggbb` colours sliced by byte offsets)
+BOUNDARY = [pre + body for pre in ("#", "0x", "-", "rgb_", "") for body in
+            ("aééb", "€€", "é€é", "aaé€", "😀aa", "a😀b", "éééééé", "€aaaa", "aé", "日本語日", "ａｂｃ")]
 NUMS = ["0", "1", "2", "3", "5", "-1", "-2", "10", "255", "256", "65535", "2147483647", "2147483648", "-2147483649",
         "4294967296", "9223372036854775807", "9223372036854775808", "-9223372036854775808", "-9223372036854775809",
         "18446744073709551615", "18446744073709551616", "170141183460469231731687303715884105727",
@@ -114,10 +118,10 @@ def prelude():
 
 def pick(rng, code, outs):
     if rng.random() < 0.25:
-        pool = STRS + NUMS + VARS + PATHS
+        pool = STRS + NUMS + VARS + PATHS + BOUNDARY
         v = rng.choice(pool)
     elif code == "S":
-        v = rng.choice(STRS)
+        v = rng.choice(STRS) if rng.random() < 0.85 else rng.choice(BOUNDARY)
     elif code == "N":
         v = rng.choice(NUMS)
     elif code == "I":
@@ -338,7 +342,11 @@ def gen_flow_script(rng):
         out = []
         for _ in range(rng.randint(1, budget)):
             r = rng.random()
-            if r < 0.5 or depth >= 3:
+            if r < 0.06:
+                # lines that are no commands inside a block: a pre-processor directive (runs at parse time, stays in the instruction
+                # list), a comment, a blank line, a label (seed C07-w7-m1: the block scanner span on a pre-processor line in a body)
+                out.append(rng.choice(["!print in-block", "!print", "# comment", "", ":lbl%d" % rng.randint(0, 99), "!include_files"]))
+            elif r < 0.5 or depth >= 3:
                 out.append(flow_line(rng, outs, in_fn))
             elif r < 0.62:
                 out.append("if %s" % rng.choice(["true", "false", "${a}", "${nope}", "is_defined x", "not true", "true and false"]))
@@ -589,6 +597,14 @@ def run(ck):
         scripts.append("r = calc %s1\nr2 = calc %strue\n" % ("-" * min(d_, 10000), "!" * min(d_, 10000)))
         scripts.append("if %strue%s\nend\nr = not %sfalse%s\n" % ("( " * dc_, " )" * dc_, "( " * dc_, " )" * dc_))
         scripts.append("a = array\n" + "b = array ${a}\na = array ${b}\n" * min(d_, 5000) + "r = json_encode --collection ${a}\nrelease -r ${a}\n")
+    # option-value stream: every option of every command followed by every boundary text (and a few others) as its value
+    for cmd_, fls_ in sorted(command_flags().items()):
+        if cmd_ not in SIGS:
+            continue
+        for fl_ in fls_:
+            vals_ = BOUNDARY + ["", "x", "-1", "#", "#12345", "#1234567", "#zzzzzz"]
+            scripts.append("".join("o%d = %s %s %s a b\n" % (j_, cmd_, fl_, quote(v_)) for j_, v_ in enumerate(vals_)
+                                   if in_known_class(cmd_, [fl_, v_, "a", "b"]) is None and v_ not in HAZARD_WORDS))
     n_straight = len(scripts)
     scripts += [gen_flow_script(rng) for _ in range(20000 if thorough else 3000)]
     lines = ["S\t" + enc_str(t) for t in texts + scripts]
